@@ -950,6 +950,9 @@ def rule_probes(prog, resolve, marks, limit):
     return out
 
 
+EXTRA_FEA = {'vertical-named-short-record': '\nvalueRecordDef -30 SHORTH;\nvalueRecordDef <0 -10 0 -40> FULLV;\nfeature kern { pos A B <SHORTH>; pos A C -20; } kern;\nfeature vkrn { pos A B <SHORTH>; pos A C <FULLV>; pos B C -25; } vkrn;\nfeature vpal { pos A <SHORTH>; pos B <FULLV>; pos C -15; } vpal;\nfeature vhal { pos D <SHORTH>; } vhal;\n', 'lookupflags': '\n@TOP = [acutecomb gravecomb];\ntable GDEF { GlyphClassDef [A B C D], [f_i], [acutecomb gravecomb cedilla], ; } GDEF;\nfeature liga {\n  lookupflag IgnoreMarks; sub f i by f_i;\n  lookupflag UseMarkFilteringSet @TOP; sub A B by C;\n  lookupflag MarkAttachmentType @TOP RightToLeft; sub C D by A;\n  lookupflag 0; sub D D by B;\n} liga;\n', 'languages': '\nlanguagesystem DFLT dflt; languagesystem latn dflt; languagesystem latn TRK; languagesystem grek dflt;\nfeature locl {\n  script latn; language TRK exclude_dflt; sub i by A;\n  language dflt; sub B by C;\n  script grek; sub C by D;\n} locl;\nfeature liga { sub f i by f_i; script latn; language TRK; sub f f by B; } liga;\n', 'class-backtrack-many-rules': "@K1 = [A B]; @K2 = [C D]; @K3 = [E F]; @K4 = [G H];\nfeature calt {\n  sub @K1 @K2 a' by b;\n  sub @K2 @K1 c' by d;\n  sub @K1 @K3 e' by f;\n  sub @K3 @K1 g' by h;\n  sub @K2 @K3 i' by j;\n  sub @K3 @K2 k' by l;\n  sub @K1 @K4 m' by n;\n  sub @K4 @K1 a' by c;\n  sub @K2 @K4 e' by g;\n} calt;\n"}
+
+
 def corpus_case(path):
     """worker: one corpus .fea file -> trace dict"""
     from fontTools.feaLib.error import FeatureLibError
@@ -1119,6 +1122,15 @@ def run(chk):
 
     # corpus
     files = common.corpus_files(".fea")
+    # grammar corners the corpus does not hold (named value records used in vertical features, mark filtering sets,
+    # language exclusion): written to scratch files and judged like corpus files (print/parse fixed point, same tables)
+    xdir = os.path.join(chk.work, "extra-fea")
+    os.makedirs(xdir, exist_ok=True)
+    for name, text in sorted(EXTRA_FEA.items()):
+        xp = os.path.join(xdir, name + ".fea")
+        with open(xp, "w") as fh:
+            fh.write(text)
+        files.append(xp)
     res = common.pmap(corpus_case, files, procs=14)
     ctraces = []
     stats = {"files": len(files), "fixed_point_judged": 0, "compiled": 0, "shaping_judged": 0}
